@@ -345,3 +345,10 @@ func lemma_block_no_leak(i *ignore, meta *ast.Meta) {
 // the guard's helper is executed, not abstracted
 //@ func everyScopeIn [C05 C11]
 //@   inline
+
+// esi: the simulator runs the statement in FETCH only (interpreter/statement.go ProcessEsiStatement);
+// "everything the linter accepts also executes in the simulator" therefore needs a diagnostic for
+// every other scope. The linter accepts esi everywhere: recorded as a KNOWN FINDING of C05
+// (/verif/known_findings.json), not repaired - which side is right is a decision for the maintainers.
+//@ func (*Linter).lintEsiStatement [C05]
+//@   ensures [esi-accepted-only-where-the-simulator-runs-it C05] scopesWithin(old(ctx.Mode()), lctx.FETCH) || called("Error")
